@@ -654,6 +654,8 @@ BODIES = [
     ("RG_select0", "libcds/src/bitsequence/BitSequenceRG.cpp", "BitSequenceRG::select0", 0),
     ("DecodingTable_getSubstring", "utils/Coder/DecodingTable.cpp", "DecodingTable::getSubstring", 0),
     ("DecodingTable_processChunk", "utils/Coder/DecodingTable.cpp", "DecodingTable::processChunk", 0),
+    ("StatCoder_encodeSymbol", "utils/Coder/StatCoder.cpp", "StatCoder::encodeSymbol", 0),
+    ("StatCoder_encodeString", "utils/Coder/StatCoder.cpp", "StatCoder::encodeString", 0),
     ("RG_BuildRank", "libcds/src/bitsequence/BitSequenceRG.cpp", "BitSequenceRG::BuildRank", 0),
 ]
 
